@@ -50,6 +50,10 @@ def lean_char(c):
     return f"'{c}'"
 
 
+def lean_chars(s):
+    return '[' + ', '.join(lean_char(c) for c in s) + ']'
+
+
 def lean_int(i):
     return f'({i})' if i < 0 else str(i)
 
@@ -155,7 +159,8 @@ def tokenizer_literals():
             classes.append(node.comparators[0].value)
     if len(classes) != 5:
         raise TranslatorError(f'_tokenize character classes changed: {classes}')
-    from chython.files.daylight import smarts as sm
+    import importlib
+    sm = importlib.import_module('chython.files.daylight.smarts')
     if sm.cx_radicals.pattern != CX_RADICALS:
         raise TranslatorError('cx_radicals regex changed')
     return dict(charge=dict(tk.charge_dict), replace=dict(tk.replace_dict), notd={k: list(v) for k, v in tk.not_dict.items()},
@@ -185,13 +190,13 @@ def generate():
     L = ['-- GENERATED by harness/gen/gen_query.py from /repo (periodictable, tokenize.py, query setters). Do not edit.',
          'namespace ChythonModel.Gen.Query', '',
          '/-- `Element.__subclasses__()` order: symbol, atomic number, `is_forming_single_bonds`, `isinstance(·, GroupXVIII)` -/',
-         'def elemFlags : List (String × Nat × Bool × Bool) := [']
-    L.append(',\n'.join(f'  ({lean_str(s)}, {z}, {lean_bool(a)}, {lean_bool(b)})' for s, z, a, b in rows) + ']')
+         'def elemFlags : List (List Char × Nat × Bool × Bool) := [']
+    L.append(',\n'.join(f'  ({lean_chars(s)}, {z}, {lean_bool(a)}, {lean_bool(b)})' for s, z, a, b in rows) + ']')
     L += ['', '/-- `QueryElement.__subclasses__()` order: symbol (`__name__[5:]`), atomic number -/',
-          'def querySyms : List (String × Nat) := [']
-    L.append(',\n'.join(f'  ({lean_str(s)}, {z})' for s, z in qrows) + ']')
+          'def querySyms : List (List Char × Nat) := [']
+    L.append(',\n'.join(f'  ({lean_chars(s)}, {z})' for s, z in qrows) + ']')
     L += ['', '/-- `tokenize.charge_dict` (dict order) -/',
-          'def chargeDict : List (String × Int) := [' + ', '.join(f'({lean_str(k)}, {lean_int(v)})' for k, v in tl['charge'].items()) + ']',
+          'def chargeDict : List (List Char × Int) := [' + ', '.join(f'({lean_chars(k)}, {lean_int(v)})' for k, v in tl['charge'].items()) + ']',
           '/-- `tokenize.replace_dict` -/',
           'def replaceDict : List (Char × Nat) := [' + ', '.join(f'({lean_char(k)}, {v})' for k, v in tl['replace'].items()) + ']',
           '/-- `tokenize.not_dict` -/',
@@ -199,7 +204,7 @@ def generate():
           '/-- the primitive letters `_query_parse` accepts in front of a number -/',
           'def primLetters : List Char := [' + ', '.join(lean_char(c) for c in tl['prims']) + ']',
           '/-- character classes of `_tokenize` in source order: bonds, up/down, organic, aromatic, two-letter starters -/',
-          'def tokClasses : List String := [' + ', '.join(lean_str(c) for c in tl['classes']) + ']',
+          'def tokClasses : List (List Char) := [' + ', '.join(lean_chars(c) for c in tl['classes']) + ']',
           '', '/-- accepted int range of `_validate` (neighbors, heteroatoms, implicit hydrogens), probed on the live setters -/',
           f'def countLo : Nat := {ps["neighbors"][0]}', f'def countHi : Nat := {ps["neighbors"][1]}',
           f'def hybLo : Nat := {ps["hybridization"][0]}', f'def hybHi : Nat := {ps["hybridization"][1]}',
